@@ -506,9 +506,15 @@ impl Document {
 
             cursor += 1;
 
-            if cursor >= self.tokens.len() - 1 {
+            if cursor >= self.tokens.len() {
                 break;
             }
+        }
+
+        // An initialism that runs up to the last token has not been closed by the loop.
+        if let Some(start) = initialism_start {
+            let end = self.tokens[cursor - 2].span.end;
+            self.tokens[start].span.end = end;
         }
 
         self.tokens.remove_indices(to_remove);
